@@ -228,7 +228,7 @@ static RouteRes runRoute(const LPModel& M, const NamedLP& user, const Route& r, 
          return res;
       }
    }
-   NamedLP E = expectedAfterRoundTrip(in, r.fmt, r.wzo, res.ns);
+   NamedLP E = expectedAfterRoundTrip(in, r.fmt, r.wzo, res.ns, mps && !r.rational);
    if(r.scaled == 2)
    {
       // sanity only: the file holds the scaled LP (same shape and pattern, entries differ by the scale factors)
